@@ -1,5 +1,6 @@
 import TnVerif.Lemmas.Ortho
 import TnVerif.Lemmas.OrthSweep
+import TnVerif.Lemmas.OrthFull
 /-!
 # C13 — orthogonalisation yields the documented gauge without changing the tensor
 
@@ -122,5 +123,126 @@ theorem norm_carried_by_last (ms : List (Mode S)) (cur : Mode S) (rest : List (M
   apply Finset.sum_congr rfl; intro a _; ring
 
 end sweep
+
+
+/-! ### the general call `Tensor.orthogonalize(mu)` on TT-Tucker tensors (any `mu`, factors on any subset of modes)
+
+`asL` = the answers recorded by the `mu` calls `left_orthogonalize(0 … mu-1)` and `asR` = those of the calls
+`right_orthogonalize(N-1 … mu+1)`, both in call order; each answer holds the QR of the Tucker factor (iff the mode has one)
+and the QR of the core's unfolding.  `orthfull_okL` / `orthfull_okR` (Lemmas/OrthFull.lean) say that each answer satisfies
+`Q·R = A` for the matrix it was computed from (the chain as the earlier steps left it, after `_cp_to_tt`), that a factor QR
+was recorded exactly when the mode has a factor, and the dimension bookkeeping of the bond; `orthfull_orthoL/R` add `QᵀQ = I`. -/
+section full
+
+/-- **(a) `orthogonalize(mu)` does not change the represented tensor**: for every `mu < N`, any format (CP cores are converted
+    first, Tucker factors on any subset of modes), any sizes and ranks, every entry of the decompressed tensor is the same
+    before and after, provided every recorded QR answer multiplies back to its input. -/
+theorem orthogonalize_mu_dense (t : Tensor R) (mu : Nat) (asL asR : List (OrthAns R)) (is : List Nat)
+    (hwf : t.WF) (hmu : mu < t.length) (hlen : asL.length = mu)
+    (hL : orthfull_okL asL (cpToTTAll t))
+    (hR : orthfull_okR asR.reverse ((orthLeftPart asL (cpToTTAll t)).drop mu))
+    (hin : inShape is t.shape) :
+    (t.orthFull mu asL asR).dense is = t.dense is := by
+  have hsh : (cpToTTAll t).shape = t.shape := cpToTTAll_shape t
+  have hl1 : (cpToTTAll t).length = t.length := by simpa [Tensor.shape] using congrArg List.length hsh
+  unfold Tensor.orthFull Tensor.dense
+  simp only []
+  rw [show List.take mu asL = asL from List.take_of_length_le (by omega)]
+  rw [orthfull_dense (cpToTTAll t) mu asL asR.reverse is (by omega) hL hR (by rw [hsh]; exact hin)]
+  exact dense_cpToTTAll t hwf is
+
+/-- **(b) gauge of the cores**: afterwards every core left of `mu` has an orthonormal left unfolding and every core right of
+    `mu` an orthonormal right unfolding (the new cores are the kernels' `Q`s, `QᵀQ = I`). -/
+theorem orthogonalize_mu_gauge (t : Tensor R) (mu : Nat) (asL asR : List (OrthAns R))
+    (hmu : mu < t.length) (hlen : asL.length = mu) (hlenR : asR.length + mu + 1 = t.length)
+    (hL : orthfull_okL asL (cpToTTAll t)) (hoL : ∀ A ∈ asL, orthfull_orthoL A)
+    (hR : orthfull_okR asR.reverse ((orthLeftPart asL (cpToTTAll t)).drop mu)) (hoR : ∀ A ∈ asR, orthfull_orthoR A) :
+    (∀ x ∈ (t.orthFull mu asL asR).take mu, orthfull_LOcore x.core) ∧
+    (∀ x ∈ (t.orthFull mu asL asR).drop (mu + 1), orthfull_ROcore x.core) := by
+  have hsh : (cpToTTAll t).shape = t.shape := cpToTTAll_shape t
+  have hl1 : (cpToTTAll t).length = t.length := by simpa [Tensor.shape] using congrArg List.length hsh
+  have hl2 := orthLeftPart_length asL _ hL
+  unfold Tensor.orthFull
+  simp only []
+  rw [show List.take mu asL = asL from List.take_of_length_le (by omega)]
+  have hlt : (List.take mu (orthLeftPart asL (cpToTTAll t))).length = mu := by rw [List.length_take]; omega
+  constructor
+  · intro x hx
+    rw [List.take_left' hlt] at hx
+    exact (orthLeftPart_gauge asL _ hL hoL (by omega) x (hlen ▸ hx)).1
+  · intro x hx
+    rw [← List.drop_drop, List.drop_left' hlt] at hx
+    exact (orthRightPart_gauge asR.reverse _ hR (fun A hA => hoR A (by simpa using hA))
+      (by simp only [List.length_reverse, List.length_drop]; omega) x (by simpa using hx)).1
+
+/-- **(c) gauge of the Tucker factors**: afterwards the Tucker factor of EVERY mode other than `mu` (every visited mode that
+    has one) has orthonormal columns — each visit runs `factor_orthogonalize` first, and the contract demands a recorded factor
+    QR for every visited mode that carries a factor. -/
+theorem orthogonalize_mu_factors (t : Tensor R) (mu : Nat) (asL asR : List (OrthAns R))
+    (hmu : mu < t.length) (hlen : asL.length = mu) (hlenR : asR.length + mu + 1 = t.length)
+    (hL : orthfull_okL asL (cpToTTAll t)) (hoL : ∀ A ∈ asL, orthfull_orthoL A)
+    (hR : orthfull_okR asR.reverse ((orthLeftPart asL (cpToTTAll t)).drop mu)) (hoR : ∀ A ∈ asR, orthfull_orthoR A) :
+    (∀ x ∈ (t.orthFull mu asL asR).take mu, orthfull_facOrtho x) ∧
+    (∀ x ∈ (t.orthFull mu asL asR).drop (mu + 1), orthfull_facOrtho x) := by
+  have hsh : (cpToTTAll t).shape = t.shape := cpToTTAll_shape t
+  have hl1 : (cpToTTAll t).length = t.length := by simpa [Tensor.shape] using congrArg List.length hsh
+  have hl2 := orthLeftPart_length asL _ hL
+  unfold Tensor.orthFull
+  simp only []
+  rw [show List.take mu asL = asL from List.take_of_length_le (by omega)]
+  have hlt : (List.take mu (orthLeftPart asL (cpToTTAll t))).length = mu := by rw [List.length_take]; omega
+  constructor
+  · intro x hx
+    rw [List.take_left' hlt] at hx
+    exact (orthLeftPart_gauge asL _ hL hoL (by omega) x (hlen ▸ hx)).2
+  · intro x hx
+    rw [← List.drop_drop, List.drop_left' hlt] at hx
+    exact (orthRightPart_gauge asR.reverse _ hR (fun A hA => hoR A (by simpa using hA))
+      (by simp only [List.length_reverse, List.length_drop]; omega) x (by simpa using hx)).2
+
+/-- the shape is unchanged and no mode is lost -/
+theorem orthogonalize_mu_shape (t : Tensor R) (mu : Nat) (asL asR : List (OrthAns R))
+    (hmu : mu < t.length) (hlen : asL.length = mu)
+    (hL : orthfull_okL asL (cpToTTAll t))
+    (hR : orthfull_okR asR.reverse ((orthLeftPart asL (cpToTTAll t)).drop mu)) :
+    (t.orthFull mu asL asR).shape = t.shape := by
+  have hsh : (cpToTTAll t).shape = t.shape := cpToTTAll_shape t
+  unfold Tensor.orthFull
+  simp only []
+  rw [show List.take mu asL = asL from List.take_of_length_le (by omega)]
+  have h2 := orthLeftPart_shape asL _ hL
+  have h3 := orthRightPart_shape asR.reverse _ hR
+  simp only [Tensor.shape, List.map_append] at h2 h3 hsh ⊢
+  rw [h3, ← List.map_append, List.take_append_drop, h2, hsh]
+
+/-- the hypotheses of `orthogonalize_mu_dense/_gauge/_factors/_shape` are satisfiable: 3 modes, `mu = 1`, a `2 × 1` Tucker factor
+    on mode 0 (so the left step records a factor QR and a core QR, the right step a core QR only) -/
+example : orthfull_exT.WF ∧ 1 < orthfull_exT.length ∧ orthfull_exL.length = 1 ∧ orthfull_exR.length + 1 + 1 = orthfull_exT.length ∧
+    inShape [1, 0, 0] orthfull_exT.shape ∧
+    orthfull_okL orthfull_exL (cpToTTAll orthfull_exT) ∧ (∀ A ∈ orthfull_exL, orthfull_orthoL A) ∧
+    orthfull_okR orthfull_exR.reverse ((orthLeftPart orthfull_exL (cpToTTAll orthfull_exT)).drop 1) ∧
+    (∀ A ∈ orthfull_exR, orthfull_orthoR A) := by
+  refine ⟨?_, by decide, by decide, by decide, ?_, ?_, ?_, ?_, ?_⟩
+  · simp [orthfull_exT, Tensor.WF, Tensor.WFfrom, TMode.ok, Core.rl, Core.rr, Core.spatial]
+  · simp [orthfull_exT, Tensor.shape, TMode.n, Core.spatial, inShape]
+  · simp [orthfull_exT, orthfull_exL, cpToTTAll, cpToTTAll.go, Core.lift1, Core.liftLast, Core.toTT, orthfull_okL, orthfull_leftOK,
+      orthfull_facOK, OrthAns.facStep, TMode.factorOrth, Core.lin, Core.spatial, sumTo]
+  · simp [orthfull_exL, orthfull_orthoL, orthfull_QtQ]
+  · simp [orthfull_exT, orthfull_exL, orthfull_exR, cpToTTAll, cpToTTAll.go, Core.lift1, Core.liftLast, Core.toTT, orthfull_okR,
+      orthfull_rightOK, orthfull_facOK, OrthAns.facStep, TMode.factorOrth, Core.lin, Core.spatial, sumTo, orthLeftPart,
+      orthLeftStep, leftOrthPair, orthRightPart]
+  · simp [orthfull_exR, orthfull_orthoR, orthfull_QQt]
+
+-- NOT YET PROVED
+-- theorem orthogonalize_mu_norm (t : Tensor R) (mu : Nat) (asL asR : List (OrthAns R)) (cmu : TMode R) … (same hypotheses as
+--     `orthogonalize_mu_gauge`, `R` a commutative ring, boundary ranks 1) (hc : (t.orthFull mu asL asR)[mu]? = some cmu) :
+--     boxSum t.shape (fun is => t.dense is ^ 2)
+--       = ∑ i ∈ range cmu.n, ∑ a ∈ range cmu.core.rl, ∑ b ∈ range cmu.core.rr, cmu.toMode.G i a b ^ 2
+-- (the squared Frobenius norm equals that of core `mu` contracted with its own factor).  The ingredients are
+-- `orthogonalize_mu_dense`, `orthogonalize_mu_gauge`, `orthogonalize_mu_factors` above and the one-sided statement
+-- `norm_carried_by_last`; what is missing is the two-sided isometry argument (left-orthonormal prefix AND right-orthonormal
+-- suffix, each with orthonormal factors, are isometries of the bond spaces).
+
+end full
 
 end TN.C13
